@@ -44,13 +44,18 @@ Definition attr_okb (a : attr) : bool :=
   && all_ws_b (a_ws1 a) && all_ws_b (a_ws2 a) && ((a_q a =? 34) || (a_q a =? 39))
   && forallb (fun c => negb (c =? a_q a) && negb (c =? 0)) (a_val a).
 
-Definition str_okb (s : list Z) : bool := forallb (fun c => negb (c =? 34) && negb (c =? 0)) s.
+Definition lit_okb (q : Z) (s : list Z) : bool := forallb (fun c => negb (c =? q) && negb (c =? 0)) s.
 Definition dinner_okb (p : dinner) : bool :=
-  match p with DIChar c => negb (c =? 34) && negb (c =? 93) && negb (c =? 0) | DIStr s => str_okb s end.
+  match p with
+  | DIChar c => negb (c =? 34) && negb (c =? 39) && negb (c =? 93) && negb (c =? 0)
+  | DIStr s => lit_okb 34 s
+  | DIStrS s => lit_okb 39 s
+  end.
 Definition dpiece_okb (p : dpiece) : bool :=
   match p with
-  | DChar c => negb (c =? 34) && negb (c =? 91) && negb (c =? 93) && negb (c =? 62) && negb (c =? 0)
-  | DStr s => str_okb s
+  | DChar c => negb (c =? 34) && negb (c =? 39) && negb (c =? 91) && negb (c =? 93) && negb (c =? 62) && negb (c =? 0)
+  | DStr s => lit_okb 34 s
+  | DStrS s => lit_okb 39 s
   | DSub inner => forallb dinner_okb inner
   end.
 
@@ -85,7 +90,7 @@ Qed.
 Lemma nz_b_sound l : nz_b l = true -> Forall (fun c => c <> 0) l.
 Proof. apply forallb_Forall. intros x H. lia. Qed.
 
-Lemma str_okb_sound s : str_okb s = true -> str_ok s.
+Lemma lit_okb_sound q s : lit_okb q s = true -> lit_ok q s.
 Proof. apply forallb_Forall. intros x H. lia. Qed.
 
 Lemma attr_okb_sound a : attr_okb a = true -> attr_ok a.
@@ -103,11 +108,11 @@ Proof.
 Qed.
 
 Lemma dinner_okb_sound p : dinner_okb p = true -> dinner_ok p.
-Proof. destruct p as [c|s]; cbn [dinner_okb dinner_ok]; [lia|apply str_okb_sound]. Qed.
+Proof. destruct p as [c|s|s]; cbn [dinner_okb dinner_ok]; [lia|apply lit_okb_sound|apply lit_okb_sound]. Qed.
 
 Lemma dpiece_okb_sound p : dpiece_okb p = true -> dpiece_ok p.
 Proof.
-  destruct p as [c|s|inner]; cbn [dpiece_okb dpiece_ok]; [lia|apply str_okb_sound|].
+  destruct p as [c|s|s|inner]; cbn [dpiece_okb dpiece_ok]; [lia|apply lit_okb_sound|apply lit_okb_sound|].
   apply forallb_Forall. apply dinner_okb_sound.
 Qed.
 
@@ -147,3 +152,14 @@ Proof. intros items H. apply xml_wellformed_tokens_proof. apply doc_okb_sound. e
 
 Example ex_items_okb : doc_okb ex_items = true.
 Proof. vm_compute. reflexivity. Qed.
+
+Example ex_squote_items_okb : doc_okb ex_squote_items = true /\ doc_okb ex_squote_items2 = true.
+Proof. vm_compute. split; reflexivity. Qed.
+
+Theorem xml_doctype_single_quote_proof :
+  render_doc ex_squote_items = ex_doctype_squote /\
+  lexes (xml_init ex_doctype_squote) (expect_doc ex_squote_items) 1.
+Proof.
+  split; [apply ex_squote_items_bytes|]. rewrite <- ex_squote_items_bytes.
+  apply xml_wellformed_tokens_proof. apply ex_squote_items_ok.
+Qed.
